@@ -435,17 +435,39 @@ def run(tier):
                 else [native_plan, large_plan, mid_plan, guard_plan, bigov_plan, bigov2_plan] if build == "native-release"
                 else [boundary_plan, large_plan, guard_plan, bigov_plan]) + ([huge_plan] if build in ("release", "native-release") else [])
 
+    def load_scale():
+        try:
+            return max(1.0, os.getloadavg()[0] / (os.cpu_count() or 1))
+        except OSError:
+            return 1.0
+
+    base_limit = 120 if quick else 600
+
     def run_one(job):
         build, binary, (tag, cmd, expect) = job
-        # (a complete plan takes seconds; a hang of the code under test is a TimedOut event)
-        return job, run_probe(binary, cmd, timeout=120 if quick else 600)
+        # (a complete plan takes seconds; a hang of the code under test is a TimedOut event - after re-confirmation below)
+        return job, run_probe(binary, cmd, timeout=int(base_limit * load_scale()))
 
     # all (build, plan) probe runs side by side (each is a single-threaded process)
     jobs = [(build, binary, pl) for build, binary in builds.items() for pl in plans_of(build)]
     with concurrent.futures.ThreadPoolExecutor(max_workers=6) as ex:
         outcomes = list(ex.map(run_one, jobs))
     runs = []
+    trip_notes = []
     for (build, binary, (tag, cmd, expect)), (recs, status, partial) in outcomes:
+        if status == "timeout":
+            # a WALL-CLOCK trip only counts if the same plan, run ALONE with a limit >= 5x the original (scaled by the load),
+            # times out in 2 of 2 re-runs; otherwise the re-run's output is judged and the trip is noted
+            limit = int(5 * base_limit * load_scale())
+            reproduced = 0
+            for attempt in (1, 2):
+                r2, s2, p2 = run_probe(binary, cmd, timeout=limit)
+                if s2 == "timeout":
+                    reproduced += 1
+                    continue
+                recs, status, partial = r2, s2, p2
+                break
+            trip_notes.append({"build": build, "plan": tag, "isolated_limit_s": limit, "reproduced": reproduced, "of": 2 if reproduced == 2 else attempt})
         if True:
             meta = [r for r in recs if r.get("f") == "meta"]
             calls = [r for r in recs if r.get("f") not in ("meta", "end")]
@@ -473,6 +495,8 @@ def run(tier):
                 if got != expect:
                     raise core.ToolError("probe enumeration incomplete: got %s expected %s" % (got, expect))
             runs.append((build, tag, calls))
+    chk.extra["wall_clock_trips"] = trip_notes
+    chk.extra["wall_clock_trips_not_reproduced"] = [n for n in trip_notes if n["reproduced"] < 2]
     with concurrent.futures.ThreadPoolExecutor(max_workers=2) as ex:
         judged = list(ex.map(lambda r: judge(chk, r[2], "%s_%s" % (r[0], r[1])), runs))
     for (build, tag, calls), (bad, n) in zip(runs, judged):
